@@ -326,21 +326,27 @@ func runCatalogue(t *testing.T, gen func(emit emitFn)) int {
 // ---------------------------------------------------------------------------
 // base documents
 
-func basePDFs() []struct {
+type basePDF struct {
 	name  string
 	res   pdfw.Result
 	bytes []byte
-} {
+	docs  []pdfw.Doc
+	l     pdfw.Layout
+}
+
+func basePDFs() []basePDF {
 	fonts := []pdfw.FontSpec{
 		{Res: "F1", Kind: "t1win", Base: "Helvetica"},
 		{Res: "F2", Kind: "type0", Base: "ABCDEF+NotoSans", Map: []pdfw.MapEnt{{Code: 1, Text: "A"}, {Code: 2, Text: "é"}, {Code: 0x1234, Text: "\U0001F600"}}},
 		{Res: "F3", Kind: "tu1", Base: "Arial", Map: []pdfw.MapEnt{{Code: 0x41, Text: "Z"}, {Code: 0x42, Text: "ffi"}}},
+		{Res: "F4", Kind: "ttembed", Base: "ABCDEF+Verdana"},
 	}
 	page := func(id int) pdfw.Page {
 		return pdfw.Page{ID: id, MediaBox: [4]float64{0, 0, 612, 792}, Lines: []pdfw.Line{
 			{Font: 0, Size: 12, X: 72, Y: 700, Bytes: []byte("Hello (page) " + fmt.Sprint(id)), Text: "Hello (page) " + fmt.Sprint(id)},
 			{Font: 1, Size: 10, X: 72, Y: 650, Bytes: []byte{0, 1, 0, 2, 0x12, 0x34}, Hex: true, Text: "Aé\U0001F600"},
 			{Font: 2, Size: 10, X: 72, Y: 600, Bytes: []byte("AB"), Text: "Zffi"},
+			{Font: 3, Size: 10, X: 72, Y: 550, Bytes: []byte("embedded"), Text: "embedded"},
 		}}
 	}
 	d0 := pdfw.Doc{Fonts: fonts, Pages: []pdfw.Page{page(1), page(2)}}
@@ -357,18 +363,10 @@ func basePDFs() []struct {
 			Filters: [][]string{{"FlateDecode"}, {"ASCII85Decode", "FlateDecode"}, {"ASCIIHexDecode"}}, Predictor: true, ToUniFlate: true,
 			Length: "before", LengthInObjStm: true, Depth: 3, FanOut: 1, BoxLevel: 3, RotLevel: 2}},
 	}
-	var out []struct {
-		name  string
-		res   pdfw.Result
-		bytes []byte
-	}
+	var out []basePDF
 	for _, l := range layouts {
 		r := pdfw.Write(l.docs, l.l)
-		out = append(out, struct {
-			name  string
-			res   pdfw.Result
-			bytes []byte
-		}{l.name, r, r.Bytes})
+		out = append(out, basePDF{l.name, r, r.Bytes, l.docs, l.l})
 	}
 	return out
 }
@@ -411,6 +409,18 @@ func pdfFaults(name string, r pdfw.Result, emit emitFn) {
 		case "int", "startxref":
 			for _, h := range hostileInts {
 				add(fmt.Sprintf("int %q at %d := %s", old, m.Off, h), splice(b, m.Off, m.Len, h))
+			}
+			// a direct stream length (or object-stream / xref-stream field) turned into a reference to every object:
+			// cycles through the machinery that resolves lengths while an object is being loaded
+			if m.Role == "int" && m.Off >= 9 {
+				pre := string(b[m.Off-9 : m.Off])
+				for _, key := range []string{"/Length ", "/First ", "/N ", "/Size ", "/Prev ", "/Count "} {
+					if strings.HasSuffix(pre, key) {
+						for k := 0; k <= maxNum+1; k++ {
+							add(fmt.Sprintf("%sint %q at %d := %d 0 R", key, old, m.Off, k), splice(b, m.Off, m.Len, fmt.Sprintf("%d 0 R", k)))
+						}
+					}
+				}
 			}
 		case "ref":
 			for k := 0; k <= maxNum+1; k++ {
@@ -456,6 +466,73 @@ func pdfFaults(name string, r pdfw.Result, emit emitFn) {
 				add(fmt.Sprintf("xref entry %q -> offset of %q", old, string(b[h.Off:h.Off+h.Len])), splice(b, m.Off, 10, fmt.Sprintf("%010d", h.Off)))
 			}
 			add(fmt.Sprintf("xref entry %q flag flipped", old), splice(b, m.Off+17, 1, map[byte]string{'n': "f", 'f': "n"}[b[m.Off+17]]))
+		}
+	}
+}
+
+// pdfFaultsConsistent applies the same catalogue to single objects and lets the writer lay the file out again,
+// so that the fault is the only thing wrong: every cross-reference offset, /Length of other streams and
+// object-stream offset stays right and the damaged object is actually reached.
+func pdfFaultsConsistent(bp basePDF, emit emitFn) {
+	maxNum := 0
+	for _, ng := range bp.res.ObjNum {
+		if ng[0] > maxNum {
+			maxNum = ng[0]
+		}
+	}
+	ids := make([]string, 0, len(bp.res.ObjMarks))
+	for id := range bp.res.ObjMarks {
+		ids = append(ids, id)
+	}
+	sort.Strings(ids)
+	// serialised bodies are needed to show the old text and to look at the preceding key
+	for _, id := range ids {
+		for _, m := range bp.res.ObjMarks[id] {
+			id, m := id, m
+			add := func(fault, repl string, off, n int) {
+				emit("file", ".pdf", fmt.Sprintf("consistent: object %s %s at +%d: %s [%s]", id, m.Role, m.Off, fault, bp.name), func() []byte {
+					l2 := bp.l
+					l2.Patches = []pdfw.Patch{{ID: id, Off: off, Len: n, New: repl}}
+					return pdfw.Write(bp.docs, l2).Bytes
+				})
+			}
+			switch m.Role {
+			case "int":
+				for _, h := range hostileInts {
+					add(":= "+h, h, m.Off, m.Len)
+				}
+				for k := 0; k <= maxNum+1; k++ {
+					add(fmt.Sprintf(":= %d 0 R", k), fmt.Sprintf("%d 0 R", k), m.Off, m.Len)
+				}
+			case "ref":
+				for k := 0; k <= maxNum+1; k++ {
+					add(fmt.Sprintf(":= %d 0 R", k), fmt.Sprintf("%d 0 R", k), m.Off, m.Len)
+				}
+				add(":= null", "null", m.Off, m.Len)
+				add(":= 7", "7", m.Off, m.Len)
+			case "delim":
+				add("deleted", "", m.Off, m.Len)
+			case "streamdata":
+				if strings.HasPrefix(id, "fontfile:") && m.Len > 12 {
+					// binary fields of the embedded font program's table directory (the stream is unfiltered)
+					font := pdfw.MinimalTTF(96)
+					f32, nt := pdfw.TTFDirectoryFields(font)
+					be := func(v uint32) string { return string([]byte{byte(v >> 24), byte(v >> 16), byte(v >> 8), byte(v)}) }
+					for _, f := range f32 {
+						for _, v := range []uint32{0xFFFFFFFF, 0x80000000, 0x7FFFFFFF, uint32(len(font)), uint32(len(font) - 1), 0, 0xFFFFFFF0} {
+							add(fmt.Sprintf("font directory field at %d := %#x", f, v), be(v), m.Off+f, 4)
+						}
+					}
+					add("font table count := 65535", "\xff\xff", m.Off+nt, 2)
+					add("font table count := 0", "\x00\x00", m.Off+nt, 2)
+				}
+				if m.Len > 0 {
+					add("cut to half", "", m.Off+m.Len/2, m.Len-m.Len/2)
+					add("zeroed", strings.Repeat("\x00", m.Len), m.Off, m.Len)
+					add("set to FF", strings.Repeat("\xff", m.Len), m.Off, m.Len)
+					add("emptied", "", m.Off, m.Len)
+				}
+			}
 		}
 	}
 }
@@ -610,6 +687,7 @@ func TestPDFFaultCatalogue(t *testing.T) {
 	n := runCatalogue(t, func(emit emitFn) {
 		for _, bp := range bases {
 			pdfFaults(bp.name, bp.res, emit)
+			pdfFaultsConsistent(bp, emit)
 		}
 	})
 	if !t.Failed() {
@@ -647,8 +725,8 @@ var hostile = []string{"<<", ">>", "[", "]", "(", ")", "<", ">", "/", "%", "{", 
 	"beginbfchar", "endbfchar", "beginbfrange", "endbfrange", "begincodespacerange", "<0000> <FFFF>", "<D83D> <DE00>", "[ <0041> ]",
 	"1e400", "-.", "+", ".", "99999999999999999999999", "\x00", "\xff\xfe", "\xfe\xff", "\r", "\n"}
 
-func genBytesCase(t *rapid.T) Case {
-	entry := rapid.SampledFrom([]string{"coreparser", "contentstream", "cmap", "streamdecode", "htmlstring"}).Draw(t, "entry")
+// seedsFor returns small valid inputs of a raw-bytes entry point.
+func seedsFor(entry string) []string {
 	var seeds []string
 	switch entry {
 	case "coreparser":
@@ -669,6 +747,63 @@ func genBytesCase(t *rapid.T) Case {
 		seeds = []string{"<html><body><nav><a href=x>n</a></nav><h1>T</h1><p>a<b>b</b></p><ul><li>x<ul><li>y</li></ul></li></ul>" +
 			"<table><tr><td rowspan=2 colspan=2>c</td></tr></table><pre>code</pre></body></html>"}
 	}
+	return seeds
+}
+
+// token-level hostile substitutes, per entry point
+var hostileTokens = map[string][]string{
+	"contentstream": {"/A#", "/A#z", "/A#zz", "/#", "/", "(", ")", "(a\\", "(\\", "<", "<4", "<zz>", "<4 1>", ">", "[", "]", "<<", ">>", "<< /A", "BI", "ID", "EI",
+		"BI /W 1 ID", "'", "\"", "1e999", "-", "+", ".", "--1", "1.2.3", "99999999999999999999", "-99999999999999999999", "true", "null", "%", "\\", "{", "}",
+		"Do", "/Fm1", "BT", "ET", "TJ", "Tj", "q", "Q", "cm", "Tf", "Td", "T*", "\x00", "\xff"},
+	"coreparser": {"/A#", "/A#zz", "/", "(", ")", "(a\\", "<", "<4", "<zz>", ">", "[", "]", "<<", ">>", "<< /A", "obj", "endobj", "stream", "stream\n", "endstream",
+		"R", "0 0 R", "-1 0 R", "99999999999 0 R", "1 99999999999 R", "xref", "trailer", "startxref", "1e999", "-", "+", ".", "1.2.3", "99999999999999999999",
+		"/Length -1", "/Length 99999999999", "true", "null", "%", "\\", "{", "}", "\x00"},
+	"cmap": {"<", ">", "<>", "<zz>", "<0>", "<00000000000>", "[", "]", "[<0041>", "<0041>]", "begincodespacerange", "endcodespacerange", "beginbfchar", "endbfchar",
+		"beginbfrange", "endbfrange", "99999999999 beginbfchar", "-1 beginbfrange", "<FFFF> <0000> <0041>", "<0000> <FFFF> <0041>", "<00000000> <FFFFFFFF> <0041>",
+		"<00000000> <FFFFFFFF> [<0041>]", "<0000> <FFFF> <D83DDE00>", "<00> <FF> <FFFFFFFFFFFFFFFF>", "<D800>", "<DC00>", "<D83D>", "usecmap", "\x00"},
+}
+
+// tokenFaults replaces and precedes every white-space separated token of every seed by every hostile token.
+func tokenFaults(entry string, emit emitFn) {
+	for si, seed := range seedsFor(entry) {
+		fields := strings.Fields(seed)
+		if len(fields) > 60 {
+			fields = fields[:60]
+		}
+		for i := range fields {
+			for _, h := range hostileTokens[entry] {
+				i, h := i, h
+				for _, mode := range []string{"replace", "insert"} {
+					mode := mode
+					emit(entry, "", fmt.Sprintf("token: seed %d, %s %q at token %d (%q)", si, mode, h, i, clipS(fields[i])), func() []byte {
+						out := append([]string{}, fields[:i]...)
+						out = append(out, h)
+						if mode == "insert" {
+							out = append(out, fields[i])
+						}
+						out = append(out, fields[i+1:]...)
+						return []byte(strings.Join(out, " "))
+					})
+				}
+			}
+		}
+	}
+}
+
+func TestTokenFaultCatalogue(t *testing.T) {
+	n := runCatalogue(t, func(emit emitFn) {
+		for _, e := range []string{"contentstream", "coreparser", "cmap"} {
+			tokenFaults(e, emit)
+		}
+	})
+	if !t.Failed() {
+		vr.Exhaustive(fmt.Sprintf("token-level hostile substitution catalogue for the content-stream, object and CMap parsers: %d cases", n))
+	}
+}
+
+func genBytesCase(t *rapid.T) Case {
+	entry := rapid.SampledFrom([]string{"coreparser", "contentstream", "cmap", "streamdecode", "htmlstring"}).Draw(t, "entry")
+	seeds := seedsFor(entry)
 	b := []byte(rapid.SampledFrom(seeds).Draw(t, "seed"))
 	n := rapid.IntRange(1, 6).Draw(t, "nMut")
 	var desc []string
